@@ -122,9 +122,21 @@ def to_engine(yp, t, vmap):
         return t[1]
     if k == 's':          # python str constant (C02 only)
         return t[1]
+    if k == 'k':          # other python constant, given by its repr: None, 2.5, b'x', a tuple
+        return PYCONSTS[t[1]]
     if k == 'f':
         return yp.functor(t[1], [to_engine(yp, a, vmap) for a in t[2]])
     raise ValueError(t)
+
+
+PYCONSTS = {'None': None, '2.5': 2.5, "b'x'": b'x', "('t', 1)": ('t', 1), '-3': -3}
+
+
+def _const(x):
+    r = repr(x)
+    if r in PYCONSTS and type(PYCONSTS[r]) is type(x):
+        return ('k', r)
+    return ('pyconst', r)
 
 
 def reify(x, seen, depth=0):
@@ -147,7 +159,7 @@ def reify(x, seen, depth=0):
         return ('i', x)
     if isinstance(x, str):
         return ('s', x)
-    return ('pyconst', repr(x))
+    return _const(x)
 
 
 def reify_raw(x, seen, depth=0):
